@@ -269,6 +269,37 @@ def _cli(rng, ctx, res):
                             "detail": {"changed": sorted(set(after.items()) ^ set(before.items()))[:4]}})
     if ctx.audit.writes:
         res["viol"].append({"what": "envelope-decrypt opened something other than --output for writing", "mech": "c09.write", "detail": {"events": ctx.audit.writes[:3]}})
+    # the tool on altered envelopes / a foreign keystore: it must end in an error and never leave the payload (or a variant) behind
+    aead_off = meta["aead_off"]
+    spots = {"ciphertext-first": meta["ct_off"], "ciphertext-last": meta["ct_off"] + meta["ct_len"] - 1, "tag-first": meta["tag_off"], "tag-last": meta["tag_off"] + 15,
+             "attribute-value": meta["attr_index"]["vmware.iv"][2] if "vmware.iv" in meta["attr_index"] else 520}
+    if plen > 2:
+        spots["ciphertext-middle"] = meta["ct_off"] + rng.randrange(1, plen)
+    for label, pos in spots.items():
+        bad = bytearray(raw)
+        bad[pos] ^= rng.choice([1, 0x80, 0xFF])
+        env.write_bytes(bytes(bad))
+        out2 = d / "tampered-out.bin"
+        if out2.exists():
+            out2.unlink()
+        ctx.audit.allow_write_paths = {str(out2)}
+        sys.argv = ["envelope-decrypt", str(env), "-ks", str(ks), "-o", str(out2)]
+        try:
+            try:
+                o2 = call(tool.main)
+                code = o2.value if o2.ok else None
+            except SystemExit as e:
+                o2, code = None, e.code
+        finally:
+            sys.argv = argv
+        cnt["cli_tamper_runs"] = cnt.get("cli_tamper_runs", 0) + 1
+        wrote = out2.read_bytes() if out2.exists() else None
+        ended_ok = o2 is not None and o2.ok and code in (0, None)
+        leaked = wrote is not None and len(wrote) > 0 and (wrote == payload or (plen >= 16 and (wrote[:16] == payload[:16] or wrote[-16:] == payload[-16:])))
+        if ended_ok or leaked:
+            res["viol"].append({"what": "envelope-decrypt accepted an altered envelope" if ended_ok else "envelope-decrypt left plaintext behind for an altered envelope",
+                                "mech": "envelope.auth", "detail": {"altered": label, "offset": pos, "exit": repr(code), "bytes_written": None if wrote is None else len(wrote)}})
+            break
     res["nontrivial"] = True
     res["sig"] = ("cli", plen)
     res["sample"] = {"cli": True, "payload_len": plen, "output": out.name}
